@@ -126,6 +126,15 @@ func (v Value) Hash() uintptr {
 	if v.scalar != 0 {
 		return goRuntimeInt64Hash(v.scalar, 0)
 	}
+	if c, ok := v.iface.(*Closure); ok {
+		// Two distinct closures can be equal (see Closure.Equals), equal values
+		// must have the same hash: hash what Equals compares, not the pointer.
+		h := goRuntimeEfaceHash(c.Code, 0)
+		for _, upv := range c.Upvalues {
+			h = goRuntimeEfaceHash(upv.ref, h)
+		}
+		return h
+	}
 	return goRuntimeEfaceHash(v.iface, 0)
 }
 
